@@ -7,7 +7,7 @@ HERE = os.path.dirname(os.path.abspath(__file__))
 TECH = "bounded model checking of the compiled Rust code: Kani 0.68 / CBMC 6.11 (CaDiCaL) over #[kani::proof] harnesses with kani::any() inputs"
 TECH_MIR = TECH + "; plus path-exploring symbolic execution of the rustc MIR of the real functions with z3 (mirsym)"
 MIR_ONLY = "path-exploring symbolic execution of the rustc MIR of the real functions (cargo +nightly rustc -Zunpretty=mir) with z3 deciding branch feasibility and the per-path obligations (mirsym)"
-MIRSYM = ("C01", "C11", "C04", "C19", "C18", "C02", "C08", "C09", "C05", "C12", "C20", "C07", "C16")
+MIRSYM = ("C01", "C11", "C04", "C19", "C18", "C02", "C08", "C09", "C05", "C12", "C20", "C07", "C16", "C13")
 MIR_ONLY_PROPS = ("C07", "C08", "C09")
 
 CLAIMS = {
@@ -42,7 +42,7 @@ CLAIMS = {
          "remove_dir/remove_file/stat/lstat are a symbolic world under the kernel's contract. 'Only entries for which EXPR is true' = And short-circuit (C01 step); children-before-parent = walkdir's contents_first (requested: C02/C03 walk_config); '-delete implies -depth' is set in the parser (not covered).",
          "4 C10"),
  "C11": ("Grammar acceptance (mirsym): a token sequence within the bound is accepted iff it is a sentence (dangling operators, '!' without operand, unbalanced/empty parentheses, unknown primary are rejected). No panic and accept/reject per the documented sets for the leaf operand parsers (Kani): -printf format leaves (advance_one, peek, advance_by, escape sequences; ASCII and 2-byte UTF-8 at any position), -type/-xtype letters, -size unit suffix, -perm prefix, xargs -d operand.  Kani checks every reachable panic/overflow/slice index in all harnesses of this suite for the code they execute.",
-         "Kani: leaves only. mirsym: build_matcher_tree accepts exactly the sentences of the grammar for all token sequences of length <= 4 over the vocabulary (operators, parentheses, '!', eight operand-free primaries, one unknown word) and never panics there. Operand-taking primaries (missing/invalid operands), 'rejected before any file is visited' (do_find), bracket scanner, regex-crate operand parsers, uucore mode parser are NOT covered.",
+         "Kani: leaves only. mirsym: build_matcher_tree accepts exactly the sentences of the grammar for all token sequences of length <= 4 over the vocabulary (operators, parentheses, '!', eight operand-free primaries, one unknown word) and never panics there. mirsym c11_operands: 21 operand-taking primaries (incl. -newerXY spellings with junk) x 26 operand words (valid, near-miss, huge, empty) for sequences of 1..2 tokens (3 over a reduced vocabulary): accepted iff in the grammar with a valid operand; missing operands rejected; the regex crate is modelled by Python re on the pattern text in the MIR. Known finding F-C11-newer-prefix. -perm/-user/-group/-regex/-exec operands (uucore, FFI, onig), 'rejected before any file is visited' (do_find) are NOT covered.",
          "4 C11"),
  "C12": ("The glob -> POSIX BRE translation table for single atoms: every ASCII literal is escaped iff special in a BRE; '?' -> '.', '*' -> '.*', lone backslash -> never matches.",
          "Matching itself is oniguruma (C, FFI) and is trusted; bracket expressions, backslash escapes of 2+ byte patterns, subject selection (-name/-path/-lname) are outside. A small part of the property.",
@@ -56,7 +56,7 @@ CLAIMS = {
  "C15": ("-atime/-ctime/-mtime = floor(age/86400), -amin/-cmin/-mmin = floor(age/60) on each one's own timestamp for all (s,ns) pairs below 2^40 s with age >= 0; -newer strict at ns resolution with F's record per follow mode; -newerXY = entry.X > F.Y for the nine a/c/m combinations.",
          "-daystart (chrono Local), -newerXt / date parsing, the -newerXY option-name parser (regex crate), birth time are outside; F dangling is outside c15_newer_strict.",
          "4 C15"),
- "C16": ("Kani: record directives %s %n %i %U %G %d (decimal, values < 10^5), %m (all twelve bits), %y (agrees with -type under P/H/L), %Y (agrees with -xtype where the follow mode does not resolve the entry), escape sequences \\a..\\\\, \\0, \\NNN, \\c. mirsym: the real format parser (FormatString::parse with parse_format_specifier, parse_format_width, parse_escape_sequence) on format strings of 1..2 (thorough 3) items over literals incl. multi-byte text, all escapes, %%, and the path directives %p %f %h %H %P %d each plain, with a width and with '-' + width; then Printf::print + format_directive + get_starting_point on entries of a tree with symbolic names, for four spellings of the starting point: the bytes written equal the reference rendering - every directive's value, padded with blanks on the left (right with '-') to the minimum width, never truncated, everything else verbatim, nothing appended; %H '/' %P recompose %p.",
+ "C16": ("Kani: record directives %s %n %i %U %G %d (decimal, values < 10^5), %m (all twelve bits), escape sequences \\a..\\\\, \\0, \\NNN, \\c. mirsym: the real format parser (FormatString::parse with parse_format_specifier, parse_format_width, parse_escape_sequence) on format strings of 1..2 (thorough 3) items over literals incl. multi-byte text, all escapes, %%, and the path directives %p %f %h %H %P %d each plain, with a width and with '-' + width; then Printf::print + format_directive + get_starting_point on entries of a tree with symbolic names, for four spellings of the starting point: the bytes written equal the reference rendering - every directive's value, padded with blanks on the left (right with '-') to the minimum width, never truncated, everything else verbatim, nothing appended; %H '/' %P recompose %p. mirsym c16_types: %y is the letter of the record the follow mode selects AND a letter for which the real -type test is true on the same entry (symbolic lstat/stat world, -P/-H/-L, depth 0/1, explicit and walkdir entries); %Y / -xtype likewise where the follow mode does not resolve the entry.",
          "Known finding F-C16-H: %H of entries below a starting point spelled with a trailing slash lacks the slash. What write! emits is produced by fmt_model.py (port of core::fmt::write incl. Formatter::pad over the template bytes in the MIR); std::path operations on symbolic names are structural models (components, parent, file_name, ancestors, strip_prefix). %l, time directives (chrono), %u %g (FFI), %F %S %b %k %D, -fprintf's file handling, width on the record directives (Kani side) are outside; %Y under -L is outside (design decision recorded in DESIGN.md).",
          "4 C16"),
  "C18": ("The operand scan of parse_args for every pair of tokens from a 12-word vocabulary (follow flags, --, operands incl. '-', './a/', expression starters): operands in order, spelled as given, default '.'; do_find walks <=3 starting points in order, isolates failures, stops after quit.",
